@@ -5,9 +5,9 @@ from .c01 import handles_ok, fix_disagreements
 
 MODULES = ['DsdVerif.Props.C04']
 GEN_FILES = []
-THEOREM_NAMES = ['domwf_init', 'domwf_request', 'domwf_drop', 'complement_lengths_agree', 'conflict_raises', 'invert_involutive',
-                 'dtype_rule', 'dtype_default_lengths', 'dtype_length_contradiction']
-THEOREMS = []
+THEOREM_NAMES = ['domwf_init', 'domwf_request', 'domwf_drop', 'domwf_invert', 'complement_lengths_agree', 'conflict_raises',
+                 'invert_involutive', 'dtype_rule', 'dtype_default_lengths', 'dtype_length_contradiction']
+THEOREMS = ['Dsd.C04.' + t for t in THEOREM_NAMES]
 ASSUMPTIONS = [
     'DomainS.identifiers is hand-modelled by its net effect (Model/Objects.lean: domainRequest); the temporary complement objects it '
     'creates and drops are not modelled; lengths are positive integers (length 0 is falsy in the guard and outside the reading)',
